@@ -32,7 +32,7 @@ ASSUMPTIONS = [
 ]
 EXHAUSTIVE = {"quick": True, "thorough": True}
 
-SP_OPS = ["read", "assign1", "assign2", "assign_bad", "assign_none", "delete", "bump", "poison", "nullify"]
+SP_OPS = ["read", "assign1", "assign2", "assign_bad", "assign_none", "delete", "delete_failing", "bump", "poison", "nullify"]
 HOSTS = ["plain", "spec_unmanaged", "spec_managed", "spec_prepared"]
 
 
@@ -48,19 +48,23 @@ def make_sp_host(o, c, s, d, host):
         b = self.__dict__.get("base", 1)
         return None if b == "none" else b * 10  # None is a value like any other: it is cached / overridden, not "absent"
 
-    p = spec_property(getter, overridable=o, cache=c)
-    if s:
+    def setter(self, value):
+        self.__dict__["base"] = value
 
-        def setter(self, value):
-            self.__dict__["base"] = value
+    def deleter(self):
+        if self.__dict__.pop("trip", False):
+            raise RuntimeError("deleter failed")  # a deletion that fails discards nothing
+        self.__dict__["deleted"] = self.__dict__.get("deleted", 0) + 1
 
-        p = p.setter(setter)
-    if d:
-
-        def deleter(self):
-            self.__dict__["deleted"] = self.__dict__.get("deleted", 0) + 1
-
-        p = p.deleter(deleter)
+    if host == "spec_unmanaged":
+        # the keyword form of the documented signature (the one builtin `property` accepts as well)
+        p = spec_property(fget=getter, fset=setter if s else None, fdel=deleter if d else None, overridable=o, cache=c)
+    else:
+        p = spec_property(getter, overridable=o, cache=c)
+        if s:
+            p = p.setter(setter)
+        if d:
+            p = p.deleter(deleter)
     ns = {"p": p}
     if host in ("spec_managed", "spec_prepared"):
         ns["__annotations__"] = {"p": int}
@@ -118,7 +122,9 @@ class SPModel:
                 self.slot_set, self.slot = True, v
                 return ("ok", None, "override")
             return ("exc", AttributeError)
-        if op == "delete":
+        if op == "delete_failing" and self.d:
+            return ("exc", RuntimeError)  # the user's deleter raises: nothing is discarded, nothing counted
+        if op in ("delete", "delete_failing"):
             had = (self.o or self.c) and self.slot_set
             if had:
                 self.slot_set, self.slot = False, None
@@ -149,6 +155,13 @@ def sp_real_step(h, op):
             return ("ok", None)
         if op == "delete":
             del h.p
+            return ("ok", None)
+        if op == "delete_failing":
+            h.__dict__["trip"] = True
+            try:
+                del h.p
+            finally:
+                h.__dict__.pop("trip", None)
             return ("ok", None)
         if op == "bump":
             b = h.__dict__.get("base", 1)
